@@ -24,8 +24,9 @@ pub fn convert(
         let mut rules: Vec<Box<dyn VarResolve>> = vec![];
         rules.push(Box::new(ExistingVar::default()));
         if extra.element != ExprContext::Default {
-            rules.push(Box::new(AssignToFunction::default()));
-        } else {
+            rules.push(Box::new(AssignToFunction::new(extra.element)));
+        }
+        if extra.element == ExprContext::Default || extra.element == ExprContext::Argument {
             // no need to check for built-in, they don't have dots
             rules.push(Box::new(VarAsUserDefinedFunctionCall::default()));
         }
